@@ -221,6 +221,57 @@ async def session_compare(srv, world, orc, rng, label, diffs_out, counters, nscr
     await c.close()
 
 
+class UndoWindow:
+    '''Admissibility of daemon chain switches with respect to the undo window (see Engine.admissible): usable by any engine
+    that can tell when the server was observed caught up.'''
+
+    def __init__(self, world, limit):
+        self.world, self.limit = world, limit
+        self.tips = set()
+        self.dmax = {}
+        self.unproc = set()
+
+    def admissible(self, new_tip, final_height=0):
+        hf = max(new_tip.height, final_height)
+        for t in self.tips:
+            ca = common_ancestor(new_tip, t)
+            if ca.height < 0 or t.height - ca.height > self.limit:
+                return False
+            b = t
+            while b is not ca:
+                bound = self.dmax.get(b.hash, b.height)
+                if b.hash in self.unproc:
+                    bound = max(bound, hf)
+                if b.height < bound - self.limit + 1:
+                    return False
+                b = b.prev
+        return True
+
+    def forced_ok(self, n):
+        for t in self.tips:
+            b = t
+            for _ in range(n):
+                if b is None or b.height < self.dmax.get(b.hash, b.height) - self.limit + 1:
+                    return False
+                b = b.prev
+        return True
+
+    def note_daemon_tip(self):
+        t = self.world.tip
+        for h in self.unproc:
+            self.dmax[h] = max(self.dmax[h], t.height)
+        b = t
+        while b is not None and b.hash not in self.dmax:
+            self.dmax[b.hash] = t.height
+            self.unproc.add(b.hash)
+            b = b.prev
+        self.tips.add(t)
+
+    def observed_caught_up(self):
+        self.tips = {self.world.tip}
+        self.unproc = set()
+
+
 class Engine:
     '''Runs a world script against one server (with restarts) inside a VLoop.'''
 
